@@ -2,7 +2,8 @@
    Every client loop takes an ARBITRARY list of layouts (one per iteration / regrouping round):
    the layout may change between the partial requests of one call. `sorted st` is the store
    invariant (established by [] and preserved by every mutating operation, see the _sorted parts). *)
-From Verif Require Import RawKV.Model RawKV.ProofsStore RawKV.ProofsLoops RawKV.ProofsBatch RawKV.ProofsRounds RawKV.ProofsCas RawKV.ProofsWire RawKV.ProofsPlans RawKV.ProofsTop RawKV.Sequence RawKV.ProofsReg RawKV.ProofsFam RawKV.Stream RawKV.ProofsStream.
+From Coq Require Import Sorting.Permutation.
+From Verif Require Import RawKV.Model RawKV.ProofsStore RawKV.ProofsLoops RawKV.ProofsBatch RawKV.ProofsRounds RawKV.ProofsCas RawKV.ProofsWire RawKV.ProofsPlans RawKV.ProofsTop RawKV.Sequence RawKV.ProofsReg RawKV.ProofsFam RawKV.Stream RawKV.ProofsStream RawKV.ProofsShape.
 
 (* get / put (with ttl) / delete: the map laws; the ttl never influences what Get returns *)
 Theorem C11_get_put_delete : forall st k v ttl k',
@@ -282,6 +283,28 @@ Theorem C11_batches_well_formed :
 Proof. exact c11_batches_well_formed. Qed.
 Print Assumptions C11_batches_well_formed.
 
+(* the output-shape oracles of the check, as consequences: strictly ascending keys, at most `limit` pairs, every
+   pair inside [s,e) and equal to what Get returns *)
+Theorem C11_scan_result_shape : forall st Ls s e limit res,
+  sorted st -> scan st Ls s e limit = Some res ->
+  keys_asc res /\ (length res <= limit)%nat /\
+  forall k v, In (k, v) res -> lex_leb s k = true /\ below k e = true /\ srv_get st k = Some v.
+Proof. exact scan_result_shape. Qed.
+Print Assumptions C11_scan_result_shape.
+
+Theorem C11_reverse_scan_result_shape : forall st Ls s e limit res,
+  sorted st -> s <> [] -> rscan st Ls s e limit = Some res ->
+  keys_desc res /\ (length res <= limit)%nat /\
+  forall k v, In (k, v) res -> lex_leb e k = true /\ lex_ltb k s = true.
+Proof. exact rscan_result_shape. Qed.
+Print Assumptions C11_reverse_scan_result_shape.
+
+(* the sub-batches of a batch call are a permutation of the requested keys, duplicates included *)
+Theorem C11_batches_partition_request : forall ch L keys,
+  chunker_ok ch -> Permutation (flat_map snd (sub_batches ch L keys)) keys.
+Proof. exact sub_batches_perm. Qed.
+Print Assumptions C11_batches_partition_request.
+
 (* ---------------------------------------------------------------- non-vacuity *)
 Definition ex_store : store :=
   srv_batch_put [] [([97], mkEntry [1] 0); ([98], mkEntry [2] 5); ([98; 0], mkEntry [] 0);
@@ -369,3 +392,5 @@ Proof. vm_compute. reflexivity. Qed.
 Example ex_drange_stream :
   drange_reqs [Some [[98]]; Some [[98; 0]; [99]]; None] [97; 0] [] = [([97; 0], [98]); ([98], [98; 0])].
 Proof. vm_compute. reflexivity. Qed.
+Example ex_partition : Permutation (flat_map snd (sub_batches key_chunks [[98]] [[99]; [97]; [99]])) [[99]; [97]; [99]].
+Proof. apply C11_batches_partition_request. exact key_chunks_ok. Qed.
